@@ -5,7 +5,7 @@
    used to state the round-trip theorems). *)
 From ReqV Require Import Lib.Bytes Model.H1Resp Model.H1Render Model.H1RenderHead
   Proofs.H1RespProofs Proofs.H1HeadProofs Proofs.H1MimeProofs Proofs.H1TransferProofs
-  Model.H1Conn Proofs.H1SyncProofs Proofs.H1ConnProofs Model.H1Bufio Proofs.H1BufioProofs Proofs.H1MessageProofs Proofs.H1ChunkConverse.
+  Model.H1Conn Proofs.H1SyncProofs Proofs.H1ConnProofs Model.H1Bufio Proofs.H1BufioProofs Proofs.H1MessageProofs Proofs.H1ChunkConverse Model.C04Run Proofs.C04RunProofs.
 From ReqV Require Gen.H1Tables.
 From Coq Require Import Lia.
 
@@ -488,6 +488,19 @@ Theorem C04_accepted_head_bufsize_independent : forall meth b1 b2 s r rest,
   read_response_head meth b1 s = inr (r, rest) -> read_response_head meth b2 s = inr (r, rest).
 Proof. exact accepted_head_bufsize_independent. Qed.
 Print Assumptions C04_accepted_head_bufsize_independent.
+
+(* The correspondence checker compares header maps exactly: hmap_eqb on maps with unique keys
+   is equality as multimaps, and every accepted response's header map has unique keys (the Go
+   side is a map). *)
+Theorem C04_hmap_eqb_sound : forall a b,
+  NoDup (map fst a) -> NoDup (map fst b) -> hmap_eqb a b = true -> forall k, hget k a = hget k b.
+Proof. exact hmap_eqb_sound. Qed.
+Print Assumptions C04_hmap_eqb_sound.
+
+Theorem C04_accepted_header_unique : forall meth bufsize s r rest,
+  read_response_head meth bufsize s = inr (r, rest) -> NoDup (map fst (r_header r)).
+Proof. exact accepted_header_unique. Qed.
+Print Assumptions C04_accepted_header_unique.
 
 (* non-vacuity: concrete odd-looking but valid chunkings satisfy the hypotheses *)
 Example C04_nonvacuous :
